@@ -10,6 +10,12 @@ swvars == <<st, phase, hist, nTx, nFail, todo>>
 
 SweepTail == <<TxFee(<<BRec("A3", 1)>>, [nund |-> 1]), EndEv, ComEv, [a |-> "BeginBlock", dt |-> 1000], EndEv, ComEv>>
 
+\* degenerate inputs of the enterprise messages: amount zero, order id zero
+Degenerate ==
+  { Tx(<<[t |-> "Raise", pur |-> "A3", amt |-> 0, denom |-> "nund"]>>), Tx(<<[t |-> "Decide", signer |-> "A1", id |-> 0, d |-> "accept"]>>),
+    Tx(<<[t |-> "Raise", pur |-> "A3", amt |-> 3, denom |-> "other"]>>) }
+SweepAlphabet == TxAlphabet \cup Degenerate
+
 SwInit == \E n \in {3, 30} :
           /\ st = StateOf(Gen) /\ hist = <<[a |-> "InitChain", g |-> Gen]>>
           /\ todo = SweepPrefix(n) /\ phase = "prefix" /\ nTx = 0 /\ nFail = 0
@@ -17,7 +23,7 @@ SwRun == /\ todo # <<>>
          /\ st' = Step(st, Head(todo)).st /\ hist' = Append(hist, Head(todo)) /\ todo' = Tail(todo)
          /\ UNCHANGED <<phase, nTx, nFail>>
 SwChoose == /\ todo = <<>> /\ phase = "prefix"
-            /\ \E ev \in TxAlphabet :
+            /\ \E ev \in SweepAlphabet :
                  /\ st' = Step(st, ev).st /\ hist' = Append(hist, ev)
                  /\ todo' = SweepTail /\ phase' = "tail" /\ nTx' = 1 /\ UNCHANGED nFail
 SwDone == todo = <<>> /\ phase = "tail" /\ phase' = "done" /\ UNCHANGED <<st, hist, nTx, nFail, todo>>
